@@ -355,6 +355,25 @@ def run(R):
                 else:
                     R.fail('C05.MPT.4', inst3, w.qual, raises[0].ast, 'rejection does not raise ValidationFailure with the packet fields',
                            site(w, raises[0].ast))
+    # ================================================================= C05.PRV.1 the validator stored with a handler
+    R.ob('C05.PRV.1', 'the validator stored with a handler is exactly the one supplied when attaching (defaults are resolved '
+                      'when an Interest arrives, so the validator in force is the current one)')
+    for fq in ('ndn.appv2.NDNApp.attach_handler', 'ndn.app.NDNApp.set_interest_filter'):
+        ax = ctx(R, fq)
+        found = 0
+        for n in ax.cfg.nodes:
+            if n.kind == 'stmt' and isinstance(n.ast, ast.Assign):
+                for t in n.ast.targets:
+                    if isinstance(t, ast.Attribute) and t.attr == 'validator':
+                        found += 1
+                        srcs = ax.sources(n, n.ast.value)
+                        inst = f'{fq} :: {norm(n.ast)}'
+                        if srcs and all(s.kind == 'param' and s.expr == 'validator' for s in srcs):
+                            R.ok('C05.PRV.1', inst, site(ax, n.ast))
+                        else:
+                            R.fail('C05.PRV.1', inst, fq, n.ast, f'the stored validator is {srcs_text(srcs)}, not the validator argument',
+                                   site(ax, n.ast))
+        R.need(found, f'{fq}: no assignment to <node>.validator')
     R.assumptions += ['validators are user callbacks; their own correctness is out of scope',
                       'Enum members of ValidResult are all truthy (plain Enum)']
 
